@@ -28,7 +28,7 @@ func propC11(c *Ctx) propInfo {
 	c.sendUnderLock()
 	c.floor("E7.bytelayout", 12)
 	return propInfo{
-		explanation: "Static structural clauses of C11 (see DESIGN.md §4 C11): checksum/length validation dominates every success exit of ParsePacket; constant byte layouts of packet, session parameters and handshake agree between writer, reader and spec table; stream-cipher objects are created once and every received byte is decrypted before use. Decides these necessary conditions, not interoperability or cryptographic correctness.",
+		explanation: "Static structural clauses of C11 (see DESIGN.md §4 C11): checksum/length validation dominates every success exit of ParsePacket; constant byte layouts of packet, session parameters and handshake agree between writer, reader and spec table; stream-cipher objects are created once and every received byte is decrypted before use. Decides these necessary conditions, not interoperability or cryptographic correctness. One buffering reader over the socket, created before and used inside the receive loop; one-off ParsePacket calls read the socket itself.",
 		assumptions: []string{"crypto primitives (AES-CTR, SHA-256, X25519) behave as documented", "io.ReadFull handles TCP segmentation"},
 	}
 }
